@@ -437,11 +437,12 @@ Proof. exact bin_count_mismatch_one_way. Qed.
 Print Assumptions C08_bin_count_mismatch_one_way.
 
 (* non-vacuity of the rebuild form: two patches valid for the 3-bin binning 5, FORCED rebuild for the 2-bin binning 1
-   (one write call per pickle).  Hypotheses hold; the repaired model issues 14 operations (per patch: marker removed,
-   2 for the pickle, 3 for the marker + 1 truncation) and every crash point is an error (0) or the result of a fresh
-   cache (4) for the later requests 5 (earlier), 1 (rebuilt), 2 (third) and unbinned; the operation list is the one of the
-   discipline d_always and of no discipline that keeps the marker when forced; with the marker kept (pinned form, 12
-   operations) crash point 2 measures the earlier binning 5 with the two trees of binning 1: class 1 *)
+   (one write call per pickle after the truncation).  Hypotheses hold; the repaired model issues 12 operations (per patch:
+   marker removed, 2 for the pickle, 3 for the marker) and every crash point is an error (0) or the result of a fresh
+   cache (4) for the later requests 5 (earlier), 1 (rebuilt), 2 (third) and unbinned (an empty or one-byte marker reads as
+   "unbinned" over binned trees: loud); the operation list is the one of the disciplines that invalidate when forced
+   and of no discipline that keeps the marker then; with the marker kept (pinned form, 10 operations) crash points 2
+   and 7 measure the earlier binning 5 with the two trees of binning 1: class 1 *)
 Example C08_concrete_rebuild :
   let l := [(PRoot, Dir); (PIds, IdsF [0; 1]); (PDir 0, Dir); (PData 0, DataF true [0; 1]); (PMeta 0, MetaF true);
             (PBin 0, BinF (BWhole 5)); (PTrees 0, TreesF (Some 5));
@@ -450,12 +451,13 @@ Example C08_concrete_rebuild :
   let w := WBuild l [(0, 0); (1, 0)] 1 true in
   let nb := [(1, 2); (2, 2); (5, 3)] in
   c08_rebuild_hyp w (Some 5) = 0 /\ c08_rebuild_hyp w (Some 1) = 1 /\ c08_hyp w = 0 /\
-  length (w_ops true w) = 14 /\ length (w_ops false w) = 12 /\
-  map (fun k => rebuild_class true nb w k 5) (seq 0 15) = [4; 4; 4; 4; 4; 4; 4; 4; 4; 4; 4; 4; 4; 4; 4] /\
-  map (fun k => rebuild_class true nb w k 1) (seq 0 15) = [4; 4; 4; 4; 4; 4; 0; 4; 4; 4; 4; 4; 4; 0; 4] /\
-  map (fun k => rebuild_class true nb w k 2) (seq 0 15) = [4; 4; 4; 4; 4; 4; 4; 4; 4; 4; 4; 4; 4; 4; 4] /\
-  map (fun k => rebuild_class true nb w k 0) (seq 0 15) = [4; 4; 4; 4; 0; 0; 0; 4; 4; 4; 4; 0; 0; 0; 4] /\
+  length (w_ops true w) = 12 /\ length (w_ops false w) = 10 /\
+  map (fun k => rebuild_class true nb w k 5) (seq 0 13) = [4; 4; 4; 4; 4; 4; 4; 4; 4; 4; 4; 4; 4] /\
+  map (fun k => rebuild_class true nb w k 1) (seq 0 13) = [4; 4; 4; 4; 4; 4; 4; 4; 4; 4; 4; 4; 4] /\
+  map (fun k => rebuild_class true nb w k 2) (seq 0 13) = [4; 4; 4; 4; 4; 4; 4; 4; 4; 4; 4; 4; 4] /\
+  map (fun k => rebuild_class true nb w k 0) (seq 0 13) = [4; 4; 4; 4; 0; 0; 4; 4; 4; 4; 0; 0; 4] /\
+  map (fun k => rebuild_class false nb w k 5) (seq 0 11) = [4; 0; 1; 4; 4; 4; 0; 1; 4; 4; 4] /\
   c08_rebuild_ops d_always w (w_ops true w) = 0 /\ c08_rebuild_ops d_forced_only w (w_ops true w) = 0 /\
   c08_rebuild_ops d_unforced_only w (w_ops true w) = 1 /\ c08_rebuild_ops d_unforced_only w (w_ops false w) = 0 /\
-  rebuild_class false nb w 2 5 = 1 /\ c08_rebuild_case false nb w 2 5 1 = 2 /\ c08_rebuild_case true nb w 2 5 4 = 0.
+  c08_rebuild_case false nb w 2 5 1 = 2 /\ c08_rebuild_case true nb w 2 5 4 = 0.
 Proof. vm_compute. repeat split. Qed.
